@@ -150,6 +150,11 @@ theorem inRange_setAt (shape i : List Nat) (ax j : Nat) (h : inRange shape i = t
       | zero => simp only [setAt, inRange_cons]; exact ⟨by simpa using hj, h.2⟩
       | succ ax => simp only [setAt, inRange_cons]; exact ⟨h.1, ih xs ax h.2 (by simpa using hj)⟩
 
+theorem inRange_nil_iff (i : List Nat) (h : inRange [] i = true) : i = [] := by
+  cases i with
+  | nil => rfl
+  | cons x xs => simp [inRange] at h
+
 /-! ## summing out one axis -/
 
 /-- Summing out axis `ax` first and then everything else is the sum over the whole shape. -/
